@@ -2489,11 +2489,24 @@ func (s *scanner) processScannedFiles(entryPointMeta []graph.EntryPoint) []scann
 						} else {
 							sb.WriteString(s.options.MetafileFormat.MaybeRemoveWhitespace(",\n        "))
 						}
-						sb.WriteString(fmt.Sprintf(
-							s.options.MetafileFormat.MaybeRemoveWhitespace("{\n          \"path\": %s,\n          \"kind\": %s,\n          \"external\": true%s\n        }"),
-							helpers.QuoteForJSON(record.Path.Text, s.options.ASCIIOnly),
-							helpers.QuoteForJSON(record.Kind.StringForMetafile(), s.options.ASCIIOnly),
-							metafileWith))
+						if record.SourceIndex.IsValid() && record.SourceIndex.GetIndex() != runtime.SourceIndex {
+							// This import was already resolved before the scan started (it's
+							// the implicit import of an injected file). It's bundled, not
+							// external, so report the file that it refers to instead of the
+							// absolute path that was used to inject it.
+							otherFile := &s.results[record.SourceIndex.GetIndex()].file
+							sb.WriteString(fmt.Sprintf(
+								s.options.MetafileFormat.MaybeRemoveWhitespace("{\n          \"path\": %s,\n          \"kind\": %s%s\n        }"),
+								helpers.QuoteForJSON(otherFile.inputFile.Source.PrettyPaths.Select(s.options.MetafilePathStyle), s.options.ASCIIOnly),
+								helpers.QuoteForJSON(record.Kind.StringForMetafile(), s.options.ASCIIOnly),
+								metafileWith))
+						} else {
+							sb.WriteString(fmt.Sprintf(
+								s.options.MetafileFormat.MaybeRemoveWhitespace("{\n          \"path\": %s,\n          \"kind\": %s,\n          \"external\": true%s\n        }"),
+								helpers.QuoteForJSON(record.Path.Text, s.options.ASCIIOnly),
+								helpers.QuoteForJSON(record.Kind.StringForMetafile(), s.options.ASCIIOnly),
+								metafileWith))
+						}
 					}
 					continue
 				}
